@@ -120,7 +120,25 @@ def check_C08(res, tier, seed, replay):
                 for p in pres:
                     lines.append((vlib.graph_line(item, p['n'], p['edges'], dens[gid], extra=['fam=%d' % f, 'gid=%d' % gid]), f, gid))
                     item += 1
+        # small sparse graphs with equal-weight shortest paths of different hop counts (where the lexicographic tie-breaking of the
+        # tree variants decides): one abstract graph each, under many vertex numberings / edge orders, all entry points
+        nhop = 800 if tier == 'quick' else 6000
+        ngroups = 32
+        for gidx in range(ngroups):
+            defs[nfam + gidx] = []
+        for j in range(nhop):
+            f = nfam + j % ngroups                  # the file (one TLC run per file); the abstract graph's id inside it is j
+            n = rng.randint(6, 11)
+            m = min(n * (n - 1) // 2, n + rng.randint(0, 5))
+            ws = rng.choice([[1, 2], [1, 2, 3], [1, 2], [2, 3, 5], [1, 1, 2, 4]])
+            A = gens.rand_graph(rng, n, m, lambda: rng.choice(ws))
+            defs[f].append({'e': 'Def', 'id': j, 'rel': 'base', 'args': [], 'f': 1, 'n': A['n'], 'm': len(A['edges']), 'small': False, 'edges': []})
+            for p in [A, gens.reversed_order(A)] + [gens.permuted(rng, A) for _ in range(5)]:
+                lines.append((vlib.graph_line(item, p['n'], p['edges'], 4, extra=['fam=%d' % f, 'gid=%d' % j]), f, j))
+                item += 1
+        nfiles = nfam + ngroups
         res.cov['families'] = nfam
+        res.cov['hop_tie_graphs'] = nhop
         res.cov['largest_base_graphs'] = sorted(sizes, key=lambda t: -t[2])[:5]
         all_lines = [l for l, _, _ in lines]
         # sequential variants on every presentation; TBB backends on a subset of presentations
@@ -144,7 +162,7 @@ def check_C08(res, tier, seed, replay):
                     elif cur is not None:
                         seg[cur].append(ln.strip())
         files = []
-        for f in range(nfam):
+        for f in range(nfiles):
             path = os.path.join(wd, 'fam%d.ndjson' % f)
             with open(path, 'w') as o:
                 for d in defs[f]:
@@ -160,7 +178,7 @@ def check_C08(res, tier, seed, replay):
         res.cov['distinct_nontrivial'] = sum(1 for f in range(nfam) for d in defs[f])
         res.cov['rule'] = ('families of abstract graphs (two bases, their union, a subdivision, scalings by 2 and 8, a padded copy, a union of derived graphs); every abstract graph in 3-4 presentations '
                            '(renumbered, re-ordered, reversed); every presentation through signed/fvs/iso sequentially and through the three TBB variants under real oneTBB or vtbb random schedules; '
-                           'distinct_nontrivial = abstract graphs with a declared relation')
+                           'plus small hop-tie graphs (one abstract graph each, 7 presentations); distinct_nontrivial = abstract graphs with a declared relation')
         res.cov['event_counts'] = {'calls': ncalls, 'families': nfam}
         for rj in v['rejects']:
             call = rj['call']
